@@ -168,6 +168,47 @@ def run(ctx):
     from minecraft.networking.types import basic
     ctx.extra['rule'] = RULE
     types = [('varint', basic.VarInt, 5, 2 ** 32), ('varlong', basic.VarLong, 10, 2 ** 64)]
+    # an encode whose sink raises must leave no trace in the encodings that follow (any sink, any type)
+    class Broken:
+        def send(self, b):
+            raise BrokenPipeError(32, 'Broken pipe')
+
+    class Sink0:
+        def __init__(self):
+            self.b = b''
+
+        def send(self, b):
+            self.b += bytes(b)
+    for T_, nm in ((basic.VarInt, 'varint'), (basic.VarLong, 'varlong')):
+        for first in (0, 1, 127, 128, 300, 2 ** 21, 2 ** 31 - 1):
+            try:
+                T_.send(first, Broken())
+            except Exception:
+                pass
+            for nxt in (0, 1, 127, 128, 16384, 2 ** 28):
+                s_ = Sink0()
+                try:
+                    T_.send(nxt, s_)
+                    got = s_.b
+                except Exception as e:
+                    got = repr(e).encode()
+                want = b''
+                v_ = nxt
+                while True:
+                    byte = v_ & 0x7f
+                    v_ >>= 7
+                    want += bytes([byte | (0x80 if v_ else 0)])
+                    if not v_:
+                        break
+                ctx.case(('after-failed-send', nm, first, nxt))
+                if got != want:
+                    ctx.violation('%s.send(%d) right after a send of %d whose sink raised: %s, the canonical encoding is %s'
+                                  % (nm, nxt, first, got.hex(), want.hex()), {'type': nm, 'n': nxt, 'after': first},
+                                  key={'kind': 'after-failed-send', 'type': nm})
+                    break
+            else:
+                continue
+            break
     # the CLASS readers of Model/C03Nominal.lean (max_bytes pinned per class, decoder and read counter are
     # projections of one instrumented function): value / error, tell() and number of read() calls
     import io as _io
